@@ -229,6 +229,8 @@ pub fn alphabet(name: &str) -> Vec<&'static str> {
         "tab" => vec!["\t", "x", "y", "z", "u", "v"],
         // whitespace functions: space, tab, NBSP (2-byte ws), ideographic space (3-byte ws), a, b, ZWSP (non-ws), e+acute
         "ws" => vec![" ", "\t", "\u{00A0}", "\u{3000}", "a", "b", "\u{200B}", "e\u{0301}", "\r\n"],
+        // pure ASCII (byte-wise fast paths): every ASCII White_Space character, a, a control that is not whitespace, CRLF
+        "asciiws" => vec![" ", "\t", "\n", "\u{000B}", "\u{000C}", "\r", "a", "\u{001F}", "\r\n"],
         // clean texts: space, then letters incl. multi-byte and a cluster
         "cleanpair" => vec![" ", "a", "b", "ä", "e\u{0301}"],
         // tokenizer texts: a, a-umlaut, e + combining acute, space, <, p, >, emoji
